@@ -27,22 +27,28 @@ Theorem C10_block_duration_spec : forall b : block, IsBlockDuration b (block_dur
 Proof. exact block_duration_spec. Qed.
 Print Assumptions C10_block_duration_spec.
 
+(* [raster_on_stored] records which variant of check_timing.py is being verified (read from the
+   source): false = the block-raster test is applied to calc_duration(block) (source as it is),
+   true = to the stored duration (the repaired source, see C10_ok_write_clean_refuted).  The
+   declarative predicates take it as a parameter; everything else is identical. *)
+
 (* for ALL systems and ALL block lists: an entry (block, event, field, kind) is in the report iff
    that clause of the property is violated at that block / event / field *)
 Theorem C10_report_complete_sound : forall sys bs (e : err),
-  In e (check_timing sys bs) <-> Violates sys bs e.
+  In e (check_timing sys bs) <-> Violates raster_on_stored sys bs e.
 Proof. exact report_complete_sound. Qed.
 Print Assumptions C10_report_complete_sound.
 
 (* empty report iff every clause holds *)
-Theorem C10_check_ok_iff : forall sys bs, check_timing sys bs = [] <-> TimingValid sys bs.
+Theorem C10_check_ok_iff : forall sys bs,
+  check_timing sys bs = [] <-> TimingValid raster_on_stored sys bs.
 Proof. exact check_ok_iff. Qed.
 Print Assumptions C10_check_ok_iff.
 
 (* the same with the RF clause read as in the property text (RF end = delay + shape duration, plus
    ring-down, fits in the stored duration), for decoded RF events (t[-1] <= shape_dur) *)
 Theorem C10_check_ok_iff_text : forall sys bs, DecodedRf bs ->
-  (check_timing sys bs = [] <-> TimingValid_text sys bs).
+  (check_timing sys bs = [] <-> TimingValid_text raster_on_stored sys bs).
 Proof. exact check_ok_iff_text. Qed.
 Print Assumptions C10_check_ok_iff_text.
 
@@ -76,26 +82,27 @@ Proof. exact EventValid_grad. Qed.
 Print Assumptions C10_EventValid_grad.
 
 (* "whenever it returns ok, write() succeeds without a timing warning": the writer's assertion on
-   the [BLOCKS] duration column holds when the stored durations cover the block contents ... *)
+   the [BLOCKS] duration column holds when the stored durations cover the block contents, and
+   unconditionally for the repaired source ... *)
 Theorem C10_ok_implies_write_clean : forall sys bs,
   check_timing sys bs = [] ->
-  Forall (fun b => block_duration b <= b_stored b) bs ->
+  (raster_on_stored = true \/ Forall (fun b => block_duration b <= b_stored b) bs) ->
   Forall (fun b => write_assert_ok sys b = true) bs.
 Proof. exact ok_implies_write_clean. Qed.
 Print Assumptions C10_ok_implies_write_clean.
 
-(* ... and is FALSE without that hypothesis (the mismatch test tolerates 1 ns, the writer 1e-6
-   raster): stored duration 0.5 ns below an on-raster content *)
-Theorem C10_ok_write_clean_refuted :
+(* ... and is FALSE for the source as it is without that hypothesis (the mismatch test tolerates
+   1 ns, the writer 1e-6 raster): stored duration 0.5 ns below an on-raster content.  Reproduced on
+   the implementation (known finding C10/ok-but-write-raises). *)
+Theorem C10_ok_write_clean_refuted : raster_on_stored = false ->
   exists sys bs, check_timing sys bs = [] /\ exists b, In b bs /\ write_assert_ok sys b = false.
 Proof. exact ok_write_clean_refuted. Qed.
 Print Assumptions C10_ok_write_clean_refuted.
 
-(* non-vacuity: a valid block exists; a block with an off-raster rise time yields exactly the three
+(* non-vacuity: a valid block exists; a block with an off-raster rise time yields exactly the two
    entries the code returns for it *)
 Example C10_examples :
-  TimingValid cex_sys [ex_block_ok] /\
+  TimingValid raster_on_stored cex_sys [ex_block_ok] /\
   check_timing cex_sys [ex_block_ok; ex_block_bad] =
-    [(2%Z, SBlock, A_duration, RASTER); (2%Z, SBlock, A_duration, BLOCK_DURATION_MISMATCH);
-     (2%Z, SGx, A_rise_time, RASTER)].
+    [(2%Z, SBlock, A_duration, RASTER); (2%Z, SGx, A_rise_time, RASTER)].
 Proof. exact timing_examples. Qed.
